@@ -1,11 +1,13 @@
 from pyvc.table_engine import TableEngine
 ID = "C07"
 LEVEL = "other"
-CONTRACT_MODULES = ["contracts.table_cache", "contracts.table_setitem", "contracts.table_desig"]
+CONTRACT_MODULES = ["contracts.table_cache", "contracts.table_setitem", "contracts.table_desig", "contracts.table_split"]
 FUNCTIONS = ["Table._make_cache", "Table._get_cache", "Table._get_row_cache", "Table._get_row_cache_raise", "Table.__setitem__", "Table._append_row", "Table._concatenate_table", "Table.__delitem__", "Table.pop",
              # which row a designator (position / text / (name, count[, offset])) resolves to, and the entry points that forward to it
              "Table._get_row_index@int", "Table._get_row_index@str", "Table._get_row_index@tuple2", "Table._get_row_index@tuple3", "Table._get_row_index@other",
-             "Table.__floordiv__@forwards", "_RowView.get_index@forwards"]
+             "Table.__floordiv__@forwards", "_RowView.get_index@forwards",
+             # what a designator TEXT denotes: the six spellings of the statement over SMT-LIB strings (pyvc/strsplit_engine.py, cvc5 --strings-exp)
+             "Table._split_name_count_offset@text"]
 RAC = "rac/c07.py"
 RAC_BUDGET = {"quick": 60, "thorough": 900}
 RAC_MIN = {"quick": 8400, "thorough": 8400}      # fewer run-time evaluations than this = the harness skipped its work: checker broken, not "held"
@@ -22,7 +24,11 @@ TRUSTED = ["mutators: a store into column k yields data whose other columns are 
            "injective pair function; dict.items() as an arbitrary enumeration whose values are read at loop entry; enumerate",
            "numpy itself (array stores, object arrays), Python string methods", "z3 / cvc5",
            "designators: isinstance(row, int / str / tuple) as uninterpreted, mutually exclusive-by-precondition predicates; a tuple designator is a pair or a "
-           "triple whose count / offset are ints; Table._split_name_count_offset is assumed to return (name, count or None, offset) of the text (run-time checked)"]
+           "triple whose count / offset are ints; at the call site in _get_row_index the splitter is an uninterpreted map text -> (name, count or None, offset); "
+           "what that map IS on the six spellings of the statement is proved on the splitter's own body (Table._split_name_count_offset@text)",
+           "text designators: Python's `in`, str.split(sep[, 1]) and tuple unpacking as str.contains / str.indexof / str.substr over SMT-LIB strings; int() is an "
+           "uninterpreted function with an acceptance predicate; the separators are the defaults of the real Table.__init__ (a table built with other "
+           "separators is outside the contract); cvc5's theory of strings (--strings-exp)"]
 ASSUMPTIONS = [
     "attribute-style assignment is API for the documented fields only: key not in {_data, _index_cache, _count_cache, _names_cache} "
     "(precondition api-key of __setitem__); __delitem__/pop: not the index column itself",
@@ -30,7 +36,8 @@ ASSUMPTIONS = [
     "strictness of prefix_count on the rows carrying the name is re-derived from step + monotonicity on every run",
     "_append_row / _concatenate_table: no claim on an exception raised half way through the column loop (the table is then "
     "non-rectangular: C14)",
-    "names contain no separator substring (:: << >>): _split_name_count_offset is checked at run time only",
+    "text designators: names / patterns contain none of the characters ':' '<' '>' (the alphabet of the three separators; with one of them the spellings of the "
+    "statement are ambiguous), counts and offsets are texts int() accepts; the first-occurrence facts the path obligations use are proved per form from the form's hypotheses",
     "column arrays are not shared with another table that mutates them in place (row slices and _copy share arrays)",
     "the unique-label array (third result of _make_cache, f-strings) is outside the proved contract; get_index_unique is "
     "checked at run time",
@@ -40,8 +47,8 @@ ASSUMPTIONS = [
 BOUNDED = [
     "WHICH cell a write table[col, row] = v reaches (row-designator dispatch in __setitem__): run-time only "
     "(all update sequences of length <=2 on all index columns of length <=3/4, cache warmed before each update)",
-    "_split_name_count_offset (string parsing: what name / count / offset a TEXT denotes), __getitem__/__setitem__ row-designator dispatch, "
-    "cols.get_index_unique: run-time only (all designator spellings, reads and writes); t // row and rows.get_index(row) are proved to resolve "
+    "__getitem__/__setitem__ row-designator dispatch, cols.get_index_unique, text designators on tables built with other separators or with names containing "
+    "a separator character: run-time only (all designator spellings, reads and writes); t // row and rows.get_index(row) are proved to resolve "
     "the parsed / given (name, count, offset) against the current index column, and checked at run time as well",
 ]
 EXPLANATION = ("proved for every index column, name, count and offset: a designator given as a position, a text, a pair (name, count) or a triple (name, count, offset) is resolved by Table._get_row_index -- and hence by t // row and t.rows.get_index(row), which forward to it unchanged -- to the position of the count-th occurrence of the name on the CURRENT index column plus the offset, KeyError exactly when there is none (for a text: of the triple _split_name_count_offset makes of it, assumed); the cache built by _make_cache is complete, sound and "
@@ -53,5 +60,5 @@ EXPLANATION = ("proved for every index column, name, count and offset: a designa
                "otherwise -- and a store into any other column leaves them right: column-wise frame); every syntactic store into a "
                "table's data in the module sits in one of the methods carrying the invariant")
 LEVEL_TEXT = ("Mixed: the four cache functions and the class invariant across the five mutators are proved (z3); which cell a "
-              "write reaches, string parsing and the unique labels are run-time contract checks against a linear-scan oracle. Never claimed as proof.")
+              "write reaches and the unique labels are run-time contract checks against a linear-scan oracle. Never claimed as proof.")
 LEVEL_NOTE = "See TRUSTED/BOUNDED in the evidence file."
